@@ -20,7 +20,7 @@ type autoInv struct {
 func (e *Engine) loopHeader(f *frame, li *loopInfo, b *ssa.BasicBlock, phis []*ssa.Phi, st *State) {
 	c := e.C
 	if li.mods == nil {
-		li.mods = e.W.loopModSet(f.fn, li)
+		li.mods = e.W.loopModSet(f.fn, li, e.OwnCheck)
 	}
 	// the header state before the havoc serves pure re-evaluation of invariant loads (their families are untouched)
 	f.headEnv[b] = st.clone()
